@@ -235,6 +235,7 @@ func init() {
 		ga := NewGA(prog, g.Tab)
 		checkProducerConsumer(r, prog, a, ga, "c01")
 		checkTreeHandedOver(r, prog, a, "c01")
+		checkMatchesSubject(r, prog, a, "c01")
 		// the semantic skeleton: the clauses of the statement are the rule sets of C02–C07
 		r.importing = "C03"
 		checkConnectives(r, prog, a, "c03")
